@@ -33,7 +33,8 @@ DICT_OPS = {
     "popitem": lambda t: ("popitem", ()),
     "setdefault": lambda t: ("setdefault", ("n", [t])),
     "setdefault_same": lambda t: ("setdefault", ("s", t + 10)),
-    "update": lambda t: ("update", ({"u%d" % t: t}, {})),
+    # a mapping AND keyword arguments: one call, one critical section (not one per argument form)
+    "update": lambda t: ("update", ({"u%d" % t: t}, {"v%d" % t: t})),
     "clear": lambda t: ("clear", ()),
     "reset": lambda t: ("reset", ({"r%d" % t: t},)),
 }
